@@ -313,6 +313,19 @@ func c40Tx(r *kit.Run, rules *genesis.Rules, decls [][]chainfx.KeyDecl, shortSpo
 		if !anyShort && uerr != nil {
 			r.Violation("C40/valid-keys-units-error", c, "Transaction.Units failed on valid keys: %v", uerr)
 		}
+		// asking the same transaction object again (the processor, builder and admission all do)
+		// must not turn a refusal into an answer
+		again := mk()
+		_, e1 := again.StateKeys(bh)
+		_, e2 := again.StateKeys(bh)
+		_, e3 := again.Units(bh, rules)
+		_, e4 := again.Units(bh, rules)
+		if anyShort && (e1 == nil || e2 == nil || e3 == nil || e4 == nil) {
+			r.Violation("C40/short-key-accepted-on-repeated-call", c, "repeated StateKeys/Units calls on one transaction with a key shorter than two bytes returned errors (%v, %v, %v, %v): one of them accepted the declaration", e1, e2, e3, e4)
+		}
+		if !anyShort && (e1 != nil || e2 != nil || e3 != nil || e4 != nil) {
+			r.Violation("C40/valid-keys-error-on-repeated-call", c, "repeated StateKeys/Units calls on valid keys failed: %v %v %v %v", e1, e2, e3, e4)
+		}
 		if anyShort {
 			r.Count("tx_short_declarations", 1)
 		} else {
